@@ -5,3 +5,8 @@ open PgmVerif
 #print axioms PgmVerif.C18_closure_closed
 #print axioms PgmVerif.C18_ci_product_form
 #print axioms PgmVerif.C18_iequiv_refl_symm
+#print axioms PgmVerif.C18_closure_sound
+#print axioms PgmVerif.C18_closure_semantically_sound
+#print axioms PgmVerif.CI_decomposition
+#print axioms PgmVerif.CI_weak_union
+#print axioms PgmVerif.CI_contraction
